@@ -70,6 +70,16 @@ class Exec(ExprMixin, CallMixin):
             self.exec_stmt(s)
 
     def exec_stmt(self, s: ast.stmt):
+        cut = self.contract.ghost.get("cut") if self.inline_depth == 0 else None
+        if cut and isinstance(s, (ast.Assign, ast.AnnAssign)):
+            tgts = s.targets if isinstance(s, ast.Assign) else [s.target]
+            if any(isinstance(t, ast.Name) and t.id == cut["before_assign"] for t in tgts):
+                # cut point: the contract covers the function up to here only
+                for aname, asrc in cut["asserts"].items():
+                    t = self.truth(self._spec_eval(asrc))
+                    self.ctx.oblige(f"cut:{self.contract.qualname}:{aname}", t, kind="post", line=s.lineno)
+                self.ctx.cover(f"cover:{self.contract.qualname}:cut", line=s.lineno)
+                raise PathEnd()
         m = getattr(self, "st_" + type(s).__name__, None)
         if m is None:
             raise Unsupported(f"statement {type(s).__name__}", s)
@@ -438,6 +448,10 @@ class Exec(ExprMixin, CallMixin):
                 self.ctx.events.append(("acquire", src, list(self.ctx.held_locks)))
             elif kind == "timeout":
                 self.timeout_depth += 1
+            elif kind == "opaque":
+                if isinstance(item.optional_vars, ast.Name):
+                    self.ctx.locals[item.optional_vars.id] = self.ctx.fresh(sorts.TOpaque("ctx_" + item.optional_vars.id), item.optional_vars.id)
+                continue
             if item.optional_vars is not None:
                 if isinstance(item.optional_vars, ast.Name):
                     self.ctx.locals[item.optional_vars.id] = SV(None, None, py=("ctxmgr", kind, src))
@@ -885,6 +899,14 @@ class Exec(ExprMixin, CallMixin):
             if not ct.trusted:
                 raise Unsupported(f"callee {ct.qualname} not found in {ct.path}", node)
         bound = self.bind_args(ct, fi, self_sv, node)
+        if any("clock()" in e for e in list(ct.ensures.values()) + list(ct.exc_ensures.values())):
+            # the callee reads the wall clock: a fresh, non-decreasing instant for this call
+            now = self.ctx.fresh(TReal, "now")
+            prev = self.ctx.ghost.get("clock")
+            if prev is not None:
+                self.ctx.assume(now.t >= prev)
+            self.ctx.assume(now.t >= 0)
+            self.ctx.ghost["clock"] = now.t
         gvars = []
         for gname, gty in ct.ghost.get("ghost_params", {}).items():
             gv = self.ctx.fresh(sorts.parse_ty(gty), "g_" + gname)
@@ -902,8 +924,11 @@ class Exec(ExprMixin, CallMixin):
         mod_keys = self.modifies_keys(ct, bound)
         frame = OldFrame(dict(c.heap), dict(c.globals_), dict(bound))
         saved_locals = c.locals
+        saved_mod = self.mod
         sm = self.spec_mode
         try:
+            if fi is not None:
+                self.mod = fi.module  # names in the callee's contract resolve in the callee's module
             c.locals = dict(bound)
             self.frames.append(frame)
             # preconditions
@@ -969,6 +994,7 @@ class Exec(ExprMixin, CallMixin):
             return SV(res.ty, res.t)
         finally:
             self.spec_mode = sm
+            self.mod = saved_mod
             if self.frames and self.frames[-1] is frame:
                 self.frames.pop()
             c.locals = saved_locals
